@@ -274,7 +274,7 @@ func recoverImage(img crashImage, temp keyPair, allowed map[string]bool) (sig, w
 			}
 			rec.Devices = append(rec.Devices, rd)
 		}
-		if !glow.Verify(pub, refWeekSigningBytes(rec), rec.Sig) {
+		if !refVerify(pub, refWeekSigningBytes(rec), rec.Sig) {
 			return "recovered-server-key-unusable", "statistics signed by the recovered server do not verify under its public key"
 		}
 	}
